@@ -181,7 +181,8 @@ CONDITIONS = [
          pre=["0 <= a%d < %d" % (i, NA) for i in range(5)] + ["0 <= b%d < %d" % (i, NA) for i in range(5)],
          partitions={"quick": [{"a1": 0, "a2": 0, "b1": 0, "b2": 0, "b3": 0, "b4": 0, "a0": x, "a3": (x * 5 + 2) % NA, "b0": (x + 1) % NA} for x in range(NA)] +
                               [{"a0": 1, "a3": 0, "a4": 0, "b0": 1, "b3": 0, "b4": 0, "a1": x, "b2": (x * 3 + 1) % NA, "b1": 0} for x in range(NA)],
-                     "thorough": [{"a0": x, "a1": y, "b0": z, "a2": 0, "b2": 0, "b1": 0, "b3": 0} for x in range(NA) for y in range(NA) for z in (1, 2, 3, 7, 8)]},
+                     "thorough": [{"a0": x, "a4": y, "a1": (x + y) % NA, "a2": (x * 3 + y) % NA, "a3": (x + 2 * y) % NA, "b1": (x + y) % NA, "b2": (x * 3 + y) % NA,
+                                   "b3": (x + 2 * y) % NA, "b4": y} for x in range(NA) for y in range(NA)]},
          timeout={"quick": 600, "thorough": 1800}, path_timeout=60,
          functions=["ident.code", "ident.decode", "urllib.parse.quote/unquote (real)"],
          bounds="five NameID fields assembled from a %d-symbol alphabet (empty, separators ',' '=' ' ' '%%', '0=' and ',1=' look-alikes, '%%2C', '+', '/', newline, non-ASCII), "
